@@ -72,3 +72,47 @@ Definition invert (t : list (string * string)) : list (string * string) := map (
 Definition randomize (t : list (string * string)) (a : arr string) : arr (option string) := amap (lookup t) a.
 Definition derandomize (t : list (string * string)) (a : arr string) : arr (option string) :=
   amap (lookup (invert t)) a.
+
+(** ** Construction of the lookup table by [WellRandomizer.__init__]: the arrays returned by the calls of
+    [rng.permutation] ([draws], in call order) are the only input *)
+
+Inductive rand_mode := RFull | RRow | RColumn.
+
+(** [[full[:, c] for c in range(C)]] *)
+Definition well_columns (R C : nat) : list (list string) :=
+  map (fun c => map (fun r => well_id r c) (seq 0 (Nat.min 26 R))) (seq 0 C).
+
+(** the arrays handed to [rng.permutation], in call order *)
+Definition rand_requests (m : rand_mode) (R C : nat) : list (list string) :=
+  match m with
+  | RFull => [concat (make_well_array R C)]
+  | RRow => make_well_array R C
+  | RColumn => well_columns R C
+  end.
+
+(** [for req, draw in ...: for o, d in zip(req, draw): lookup[o] = d] *)
+Definition rand_table_of (reqs draws : list (list string)) : list (string * string) :=
+  concat (map (fun rd => zip (fst rd) (snd rd)) (zip reqs draws)).
+
+Definition rand_table_full (R C : nat) (p : list string) : list (string * string) :=
+  zip (concat (make_well_array R C)) p.
+Definition rand_table_row (R C : nat) (ps : list (list string)) : list (string * string) :=
+  rand_table_of (make_well_array R C) ps.
+Definition rand_table_column (R C : nat) (ps : list (list string)) : list (string * string) :=
+  rand_table_of (well_columns R C) ps.
+
+(** the shapes on which the constructor raises IndexError: row mode indexes [full[r, :]] for r < R but
+    [full] has only 26 rows; column mode indexes [full[:, c]] but [make_well_array(0, C)] is 1-dimensional *)
+Definition rand_ctor_raises (m : rand_mode) (R C : nat) : bool :=
+  match m with
+  | RFull => false
+  | RRow => (26 <? R)%nat
+  | RColumn => ((R =? 0) && (0 <? C))%nat
+  end.
+
+(** [WellRandomizer((R, C), seed, mode=m).lookup], [draws] = what the calls of [rng.permutation] returned *)
+Definition mk_rand_table (m : rand_mode) (R C : nat) (draws : list (list string))
+  : res (list (string * string)) :=
+  if rand_ctor_raises m R C then Err EReject
+  else Ok (rand_table_of (rand_requests m R C) draws).
+
